@@ -5,7 +5,6 @@ import (
 	"context"
 	"encoding/json"
 	"fmt"
-	"hash/fnv"
 	"io"
 	"os"
 	"path/filepath"
@@ -278,21 +277,6 @@ type snapResult struct {
 
 var partDirRe = regexp.MustCompile(`^[0-9a-f]{16}$`)
 
-func mix(h uint64) uint64 {
-	h ^= h >> 30
-	h *= 0xbf58476d1ce4e5b9
-	h ^= h >> 27
-	h *= 0x94d049bb133111eb
-	h ^= h >> 31
-	return h
-}
-
-func siteHash(site string, salt uint64) uint64 {
-	f := fnv.New64a()
-	_, _ = f.Write([]byte(site))
-	return mix(f.Sum64() ^ salt)
-}
-
 // listing returns "relative path -> size" of every file below root, and the relative directory paths.
 func listing(root string) (files map[string]int64, dirs []string) {
 	files = map[string]int64{}
@@ -352,14 +336,12 @@ func scenario(e *simcore.Env, tp *simcore.Tape, g engine) {
 
 	// gates: armed only during the race phase, for a tape-chosen subset of sites
 	var racing atomic.Bool
-	salt := tp.U64()
-	pct := uint64([]int{0, 15, 30, 60}[tp.Choose(4)])
-	simcore.EnableGates(func(actor, site string) bool {
-		if !racing.Load() {
-			return false
-		}
-		return siteHash(site, salt)%100 < pct
-	})
+	// All sites or none: with a partial subset the goroutines between two armed gates run freely in parallel and
+	// which gate each of them reaches next depends on the real scheduler (seen as determinism mismatches). With every
+	// site armed a released goroutine performs at most one synchronising operation before it parks again.
+	gatesOn := tp.Weighted(1, 3) == 1
+	pct := map[bool]int{false: 0, true: 100}[gatesOn]
+	simcore.EnableGates(func(actor, site string) bool { return gatesOn && racing.Load() })
 	// The driver goroutine itself never enters the engine: with cooperative locks a named actor parks on
 	// contention and somebody has to release it. Every engine operation the driver issues runs on a helper
 	// goroutine (actor "main"; the engine loops it spawns inherit "main/<site>#n") while the driver releases
@@ -691,9 +673,37 @@ func scenario(e *simcore.Env, tp *simcore.Tape, g engine) {
 		}
 		return k
 	}
+	// Actor names carry spawn ordinals that shift with the number of schema-watcher workers (= GOMAXPROCS): order
+	// parked actors numerically-aware and log run-local aliases, so that a run is the same at every GOMAXPROCS.
+	aliases := map[string]string{}
+	alias := func(a string) string {
+		if actorRank(a) < 2 {
+			return a
+		}
+		if _, ok := aliases[a]; !ok {
+			aliases[a] = fmt.Sprintf("loop%d", len(aliases)+1)
+		}
+		return aliases[a]
+	}
+	canonParked := func() []*simcore.Parked {
+		ps := simcore.ParkedList()
+		sort.SliceStable(ps, func(i, j int) bool {
+			ri, rj := actorRank(ps[i].Actor), actorRank(ps[j].Actor)
+			if ri != rj {
+				return ri < rj
+			}
+			if ps[i].Actor != ps[j].Actor {
+				return naturalLess(ps[i].Actor, ps[j].Actor)
+			}
+			return ps[i].Site < ps[j].Site
+		})
+		return ps
+	}
 	writersLeft := tp.Weighted(3, 3, 2)
 	advLeft := tp.Weighted(3, 2, 2, 1)
-	maxSteps := 60 + tp.Choose(4)*80
+	maxSteps := []int{150, 400, 1000, 40}[tp.Choose(4)]
+	var burstActor string
+	burstLeft := 0
 	snapStarted, interference := false, false
 	racedWriter, racedMaint := false, false
 	racing.Store(true)
@@ -709,9 +719,8 @@ func scenario(e *simcore.Env, tp *simcore.Tape, g engine) {
 			e.Probe("reach.race_step_limit")
 			break
 		}
-		parked := simcore.ParkedList()
 		// the snapshot's own gates first, then the writers', then the engine loops' (value 0 = the simplest run)
-		sort.SliceStable(parked, func(i, j int) bool { return actorRank(parked[i].Actor) < actorRank(parked[j].Actor) })
+		parked := canonParked()
 		nOpt := len(parked)
 		optSnap, optWriter, optAdv := -1, -1, -1
 		if !snapStarted {
@@ -730,10 +739,27 @@ func scenario(e *simcore.Env, tp *simcore.Tape, g engine) {
 			e.Fail("harness", "race-stuck", "snapshot call neither finished nor parked and nothing left to do (in flight writers: %d)", inFlight())
 			return
 		}
-		// bias: starting the snapshot is choice 0 while it has not started
-		c := tp.Choose(nOpt)
-		if !snapStarted {
-			c = (c + optSnap) % nOpt
+		// run-until-yield bursts: the actor chosen last keeps running for a tape-chosen number of gates
+		c := -1
+		if burstLeft > 0 {
+			for i, p := range parked {
+				if p.Actor == burstActor {
+					c = i
+					burstLeft--
+					break
+				}
+			}
+		}
+		if c < 0 {
+			burstLeft = 0
+			// bias: starting the snapshot is choice 0 while it has not started
+			c = tp.Choose(nOpt)
+			if !snapStarted {
+				c = (c + optSnap) % nOpt
+			}
+			if c < len(parked) {
+				burstActor, burstLeft = parked[c].Actor, []int{0, 3, 12, 50}[tp.Weighted(3, 3, 2, 1)]
+			}
 		}
 		e.Step()
 		switch {
@@ -782,43 +808,70 @@ func scenario(e *simcore.Env, tp *simcore.Tape, g engine) {
 			p := parked[c]
 			if snapStarted && p.Actor != "snap" {
 				interference = true
-				if strings.HasPrefix(p.Actor, "w") {
+				if actorRank(p.Actor) == 1 {
 					racedWriter = true
 				} else {
 					racedMaint = true
 				}
 			}
-			e.Event("step %d: release %s @ %s (of %d parked)", step, p.Actor, p.Site, len(parked))
+			e.Event("step %d: release %s @ %s (of %d parked)", step, alias(p.Actor), p.Site, len(parked))
 			simcore.Release(p)
 		}
 	}
 	if !snapStarted {
 		snapStarted = true
-		interference = interference || inFlight() > 0 || len(simcore.ParkedList()) > 0
+		if inFlight() > 0 {
+			interference, racedWriter = true, true
+		}
 		nSeg := readClosed()
 		e.Event("snapshot request issued after the race steps (%d segment(s), idle-closed=%v)", nSeg, simcore.SortedKeys(closedBefore))
 		startSnapshot()
 	}
-	// everything invoked up to here may be in the snapshot; let everybody finish
+	// Everything invoked up to here may be in the snapshot. Let the request and the writers finish one gate at a
+	// time in a fixed fair order (gates stay armed: released together, the real scheduler would decide who wins);
+	// the engine loops that remain parked afterwards are released together.
 	for _, u := range units {
 		u.mayHave = true
 	}
-	// the open/closed state of the segments at the quiescent point at which the call has returned (parked
-	// actors, e.g. a rotation task about to reopen every segment, have not run yet)
 	var segsAtReturn []storage.VerifC19Seg
-	if done(snapCh) {
-		segsAtReturn, _ = g.segments(n)
-	} else {
-		for _, p := range simcore.ParkedList() {
-			if p.Actor != "snap" {
+	fairSteps := 0
+	for ; fairSteps < 200000; fairSteps++ {
+		synctest.Wait()
+		if !collect() {
+			return
+		}
+		if done(snapCh) && segsAtReturn == nil {
+			// the open/closed state at the quiescent point at which the call has returned (parked actors, e.g. a
+			// rotation task about to reopen every segment, have not run yet)
+			segsAtReturn, _ = g.segments(n)
+		}
+		if done(snapCh) && inFlight() == 0 {
+			break
+		}
+		ps := canonParked()
+		if len(ps) == 0 { // waiting for a timer
+			if !done(snapCh) {
 				interference = true
 			}
+			time.Sleep(time.Second)
+			continue
 		}
+		p := ps[fairSteps%len(ps)]
+		if !done(snapCh) && ps[0].Actor == "snap" && ps[0].Site != "lock-wait" {
+			p = ps[0] // the request itself can proceed: nobody else has to run
+		}
+		if !done(snapCh) && p.Actor != "snap" {
+			interference = true
+			if actorRank(p.Actor) == 1 {
+				racedWriter = true
+			} else {
+				racedMaint = true
+			}
+		}
+		simcore.Release(p)
 	}
+	e.Event("request and writers finished after %d more gate(s)", fairSteps)
 	drain()
-	if segsAtReturn == nil {
-		segsAtReturn, _ = g.segments(n)
-	}
 	if !done(snapCh) {
 		e.Fail("harness", "snapshot-did-not-return", "the snapshot request did not return after all gates were opened")
 		return
@@ -1079,6 +1132,38 @@ func countPost(us []*unit) int {
 		}
 	}
 	return k
+}
+
+// naturalLess compares strings with embedded decimal numbers numerically ("#9" < "#12").
+func naturalLess(a, b string) bool {
+	i, j := 0, 0
+	for i < len(a) && j < len(b) {
+		da, db := a[i] >= '0' && a[i] <= '9', b[j] >= '0' && b[j] <= '9'
+		if da && db {
+			si := i
+			for i < len(a) && a[i] >= '0' && a[i] <= '9' {
+				i++
+			}
+			sj := j
+			for j < len(b) && b[j] >= '0' && b[j] <= '9' {
+				j++
+			}
+			na, nb := strings.TrimLeft(a[si:i], "0"), strings.TrimLeft(b[sj:j], "0")
+			if len(na) != len(nb) {
+				return len(na) < len(nb)
+			}
+			if na != nb {
+				return na < nb
+			}
+			continue
+		}
+		if a[i] != b[j] {
+			return a[i] < b[j]
+		}
+		i++
+		j++
+	}
+	return len(a)-i < len(b)-j
 }
 
 func actorRank(a string) int {
